@@ -286,7 +286,7 @@ def run_cell(ctx, p):
     aug = op in AUG
     del _tap[:]
     try:
-        cast = {'int': int, 'float': float, 'float64': np.float64, 'int64': np.int64, 'list': lambda v: [float(x) for x in v],
+        cast = {'bool': bool, 'int': int, 'float': float, 'float64': np.float64, 'int64': np.int64, 'list': lambda v: [float(x) for x in v],
                 'tuple': lambda v: tuple(float(x) for x in v), 'ndarray': lambda v: np.asarray(v, dtype=np.float64)}
         a = build(L, p['a']) if L in CLASSES else cast[L](p['a'])
         b = build(R, p['b']) if R in CLASSES else cast[R](p['b'])
@@ -380,7 +380,27 @@ def run_cell(ctx, p):
     ctx.nontrivial(*cellkey)
 
 
-RUNNERS = {'cell': run_cell}
+def run_scalar_values(ctx, p):
+    """a pairing is defined by the TYPES of its operands: whether `number op X` is answered or refused, and with which class, does
+    not depend on the value of the number (0 is what sum() starts from, 1 is the neutral factor)"""
+    c, op, side = p['cls'], p['op'], p['side']
+    sig = dict(left=c if side == 'R' else 'number', right='number' if side == 'R' else c, op=op)
+    outcomes = {}
+    for s in (2, 0, 1, -1, 2.5, 0.0, 1.0, -0.0, True, False):
+        try:
+            x = build(c, p['obj'])
+            v = OPS[op](x, s) if side == 'R' else OPS[op](s, x)
+            outcomes[repr(s)] = describe(v)
+        except Exception as e:
+            outcomes[repr(s)] = 'raises'
+    kinds = set(outcomes.values())
+    ctx.judge('table', len(kinds) == 1, dict(sig, kind='answer_depends_on_the_value_of_the_number'),
+              lambda: '%s %s number (side %s): %s' % (c, op, side, outcomes))
+    ctx.cell('scalar_values', c, op, side)
+    ctx.nontrivial('scalar_values', c, op, side, len(p['obj']))
+
+
+RUNNERS = {'cell': run_cell, 'scalar_values': run_scalar_values}
 
 
 def REACH():
@@ -417,12 +437,16 @@ def run(ctx):
                             drive(RUNNERS, ctx, 'cell', dict(L=L, R=R, op=op, a=a, b=b, exp=list(exp)))
                         if i % 397 == 0:
                             ctx.sample(dict(L=L, R=R, op=op, expected=list(exp), lens=[int(ml) + 1, int(mr) + 1]), limit=8)
-    scalars = [2, 2.5, np.float64(0.5), np.int64(3)]
+    scalars = [2, 2.5, np.float64(0.5), np.int64(3), 0, 0.0, False]       # (0 + X is what sum() starts with: still not a documented pairing)
     for c in CLASSES:
         for op in ARITH:
             for side in ('R', 'L'):
                 exp = expected_scalar(c, op, side)
                 for ml in ((False, True) if c in MULTI_OK else (False,)):
+                    if op in ('add', 'sub', 'mul'):
+                        i += 1
+                        if ctx.mine(i):
+                            drive(RUNNERS, ctx, 'scalar_values', dict(cls=c, op=op, side=side, obj=operand(rng, c, ml)))
                     for s in scalars:
                         i += 1
                         if not ctx.mine(i):
@@ -505,6 +529,18 @@ def run(ctx):
                     if c == 'UnitQuaternion' and shape[0] == 3 and op in ('mul', 'imul'):
                         continue            # documented: a 3xN array on the right is a set of points to rotate
                     M = np.eye(shape[0]) + 0.1 * rng.normal(size=shape)
+                    drive(RUNNERS, ctx, 'cell', dict(L=c, R='ndarray', op=op, a=operand(rng, c, ml), b=M, exp=['raise']))
+    # a pose divided by (or raised to) an array is defined nowhere either -- scalar divisors only ("scalar * / on poses give
+    # plain arrays"); the matrix that conforms to the pose's own shape is the interesting one (it is what + and - accept)
+    for c in POSES:
+        n_ = {'SO2': 2, 'SE2': 3, 'SO3': 3, 'SE3': 4}[c]
+        for op in ('truediv', 'itruediv', 'pow', 'ipow'):
+            for shape in ((n_, n_), (n_,), (n_ - 1,) if c in ('SE2', 'SE3') else (n_ + 1,), (n_, 2)):
+                for ml in (False, True):
+                    i += 1
+                    if not ctx.mine(i):
+                        continue
+                    M = (np.eye(n_) + 0.1 * rng.normal(size=shape)) if shape == (n_, n_) else 1.0 + rng.random(size=shape)
                     drive(RUNNERS, ctx, 'cell', dict(L=c, R='ndarray', op=op, a=operand(rng, c, ml), b=M, exp=['raise']))
     # a plain list / tuple on the LEFT of a library object is documented for no class: must raise
     for c in CLASSES:
